@@ -12,6 +12,7 @@ pub mod c10;
 pub mod c12;
 pub mod c13;
 pub mod c14;
+pub mod c15;
 pub mod c16;
 pub mod c17;
 pub mod c18;
@@ -48,6 +49,7 @@ pub fn lookup(id: &str) -> Option<Prop> {
         "C12" => Prop { id: "C12", run: c12::run, replay: c12::replay, rule: c12::RULE, assumptions: COMMON_ASSUMPTIONS, isolated: false },
         "C13" => Prop { id: "C13", run: c13::run, replay: c13::replay, rule: c13::RULE, assumptions: COMMON_ASSUMPTIONS, isolated: true },
         "C14" => Prop { id: "C14", run: c14::run, replay: c14::replay, rule: c14::RULE, assumptions: COMMON_ASSUMPTIONS, isolated: false },
+        "C15" => Prop { id: "C15", run: c15::run, replay: c15::replay, rule: c15::RULE, assumptions: COMMON_ASSUMPTIONS, isolated: false },
         "C16" => Prop { id: "C16", run: c16::run, replay: c16::replay, rule: c16::RULE, assumptions: COMMON_ASSUMPTIONS, isolated: false },
         "C17" => Prop { id: "C17", run: c17::run, replay: c17::replay, rule: c17::RULE, assumptions: COMMON_ASSUMPTIONS, isolated: false },
         "C18" => Prop { id: "C18", run: c18::run, replay: c18::replay, rule: c18::RULE, assumptions: COMMON_ASSUMPTIONS, isolated: false },
